@@ -23,6 +23,8 @@ def load_cases():
     for c in cases:
         if c['id'] in extra_cases.OVERRIDES:
             c.update(extra_cases.OVERRIDES[c['id']])
+            for k in [k for k, v in c.items() if v is None]:
+                del c[k]
     # the three operator batches of the design round re-used ids; a later record with the same edit but a
     # contradicting verdict is a data-entry error of that round: the first record wins
     seen_edit, uniq = {}, []
